@@ -411,6 +411,7 @@ pub fn run(tier: Tier) -> i32 {
     rep.sample(json!({"case": cs[5], "expected": "see table in c10.rs::plan"}));
     rep.assume("connect(2) outcomes are produced by the interposer (errno) or a black-hole listener + virtual clock (never completes); HTTP/3 not driven");
     let _ = c01::HEADERS;
+    super::cq::c10_into(&mut rep);
     rep.finish()
 }
 
